@@ -147,6 +147,9 @@ def run(chk):
     from .common import RuleProxy
     c05.run(RuleProxy(chk, "R10"))
 
+    # ------------------------------------------------------------------ R13 the consuming map is registered for its COB-ID (shared with C09.R4)
+    from . import shared as _shps
+    _shps.pdo_subscribe(chk, "R13")
     # ------------------------------------------------------------------ R12 which variable an item access designates (shared clause)
     from . import shared as _shl
     _shl.pdo_lookup(chk, "R12")
